@@ -1,6 +1,7 @@
 """C18 Rational approximation functions return the optimal fraction they promise."""
 import json
 import os
+import shutil
 import framework as fw
 
 SPECDIR = "C18"
@@ -165,10 +166,18 @@ def run(ctx):
     with open(cases, "a") as f:
         for w in witnesses(ctx):
             f.write(json.dumps(w) + "\n")
-    tr1 = ctx.drive(drive, ["--cases", cases, "--n", "0"], "trace-gen.ndjson")
-    ctx.monitor("mon-gen", SPECDIR, "Trace_C18.tla", "Trace_C18.cfg", tr1, nontrivial=nontrivial, cover=cover, timeout=3000)
+    # the monitor accumulates `bad` in its state: traces are validated in chunks so that the many events of the open
+    # findings (most of the FBig lattice while F21 is open) do not make the run quadratic
+    lines = open(cases).read().splitlines()
+    chunk = 25000
+    for c in range(0, len(lines), chunk):
+        p = ctx.path("cases-gen-%d.ndjson" % (c // chunk))
+        open(p, "w").write("\n".join(lines[c:c + chunk]) + "\n")
+        tr1 = ctx.drive(drive, ["--cases", p, "--n", "0"], "trace-gen-%d.ndjson" % (c // chunk))
+        ctx.monitor("mon-gen%d" % (c // chunk), SPECDIR, "Trace_C18.tla", "Trace_C18.cfg", tr1, nontrivial=nontrivial,
+                    cover=cover, timeout=3000)
     # impl -> spec: seeded random calls, multi-word operands, all f32 / f64 exponent ranges
-    for j, (n, mw) in enumerate(ctx.pick([(2500, 2)], [(20000, 2), (6000, 5)])):
+    for j, (n, mw) in enumerate(ctx.pick([(2500, 2)], [(10000, 2), (10000, 3), (6000, 5)])):
         tr = ctx.drive(drive, ["--seed", str(ctx.seed * 13 + j), "--n", str(n), "--max-words", str(mw)], "trace-rnd%d.ndjson" % j)
         ctx.monitor("mon-rnd%d" % j, SPECDIR, "Trace_C18.tla", "Trace_C18.cfg", tr, nontrivial=nontrivial, cover=cover, timeout=3000)
     ops = ["simplest_in", "next_up", "next_down", "nearest", "is_simpler_than", "simplest_from_f32", "simplest_from_f64",
@@ -236,4 +245,6 @@ def selftest(ctx):
     got = sorted(set(b["i"] for b in v["bad"]) - bad0)
     ok = got == sorted(want)
     print("SELFTEST %s: corrupted events %s -> monitor newly flagged %s" % ("PASS" if ok else "FAIL", sorted(want), got))
+    if ok:
+        shutil.rmtree(ctx.rundir, ignore_errors=True)
     return 0 if ok else 2
